@@ -164,6 +164,12 @@ def gen_classes(rng, cfg):
     d, m = build(hdrs=[(b"A", b" ", b"b\rc")]); rej("cr-not-followed-by-lf", d, 400, [m["h1_value_end"] - 1, m["h1_value_end"] - 2])
     d0, m0 = build()
     d = d0[:m0["headers_end"]] + b"\rX\r\n"; rej("cr-not-followed-by-lf-in-blank-line", d, 400, [m0["headers_end"] + 1])
+    # a doubled CR in the empty line that ends the head (and in the one that ends the trailers)
+    d = d0[:m0["headers_end"]] + b"\r\r\n"; rej("double-cr-in-blank-line", d, 400, [m0["headers_end"] + 1, m0["headers_end"] + 2])
+    d = d0[:m0["headers_end"]] + b"\r\r\r\n"; rej("double-cr-in-blank-line", d, 400, [m0["headers_end"] + 1, m0["headers_end"] + 2])
+    if cfg.concat and 24 <= min(lim["line"], lim["hlen"] - 5):
+        dc, mc_ = build(meth=b"POST", hdrs=[(b"Transfer-Encoding", b" ", b"c")])
+        d = dc + b"1\r\nq\r\n0\r\n\r\r\n"; rej("double-cr-in-trailer-blank-line", d, 400, [len(d) - 2, len(d) - 1])
     # TRACE
     if 24 <= min(lim["line"], lim["hlen"] - 5):
         d, m = build(meth=b"TRACE"[:lim["method"]], hdrs=[(b"Content-Length", b" ", b"1")], body=b"z")
